@@ -981,7 +981,12 @@ static carquet_status_t load_next_page_mmap(
      * (levels require RLE decoding which modifies data layout) */
     bool has_levels = (reader->max_def_level > 0 || reader->max_rep_level > 0);
 
-    if (zero_copy_eligible && !has_levels) {
+    /* The view hands out num_values * value_size bytes behind page_data_ptr: they
+     * have to lie inside the page body (and thereby inside the file). A page too
+     * short for its value count goes through the standard path, which reports it. */
+    bool view_fits = value_size * (size_t)num_values <= (size_t)page_header.compressed_page_size;
+
+    if (zero_copy_eligible && !has_levels && view_fits) {
         /* ====== ZERO-COPY PATH ====== */
 
         /* Free previous owned buffer if any */
